@@ -35,15 +35,17 @@ def apply_step(obj, st, via):
                 info["raised"] = "GeomdlException"
         else:
             meth = obj.insert_knot if a == "insert" else obj.remove_knot
+            # (a count of one is the documented default of the method wrappers: it is left out)
             if pd == 1:
-                _, out = _quiet(meth, prm[0], num=num[0])
+                _, out = _quiet(meth, prm[0], num=num[0]) if num[0] != 1 else _quiet(meth, prm[0])
             else:
                 names = "uvw"[:pd]
                 kw = {}
                 for d in range(pd):
                     if prm[d] is not None:
                         kw[names[d]] = prm[d]
-                        kw["num_" + names[d]] = num[d]
+                        if num[d] != 1:
+                            kw["num_" + names[d]] = num[d]
                 _, out = _quiet(meth, **kw)
             info["printed"] = out
     elif a == "refine":
